@@ -669,6 +669,7 @@ def run(ctx: Ctx) -> None:
     _memo.rule_isinstance_on_class(ctx, ['graphiq/metrics.py', 'graphiq/circuit/circuit_dag.py'])
     _memo.rule_zip_truncation(ctx, ['graphiq/metrics.py', 'graphiq/circuit/circuit_dag.py'])
     _memo.rule_search_fallthrough(ctx, ['graphiq/metrics.py', 'graphiq/circuit/circuit_dag.py'])
+    _memo.rule_zip_pairing(ctx, ['graphiq/metrics.py', 'graphiq/circuit/circuit_dag.py'])
     from .c12 import rule_nodekeys
     rule_nodekeys(ctx)  # the label index these functions query (wrapper / identity / gate labels) is maintained by add/remove/replace
     rule_definite_attr(ctx)
